@@ -99,6 +99,8 @@ inductive OpX where
   /-- `RenameRegexp`: the regular-expression substitution is external; its values (one new name per row, or the
   fact that the expression does not compile) are read from the status the harness reports for that step -/
   | renameRe
+  /-- `Replace` with a regular expression: likewise, the new sequence of every row is read from the status -/
+  | replaceRe
 
 /-- the externally computed part of a `renamere` status: `…{!}` = the expression does not compile,
 `…{=n1=n2…}` = the new name of every row in order (percent-encoded) -/
@@ -130,6 +132,10 @@ def resolve (n : Nat) (record : String) : OpX → Op
     -- no usable record (the implementation's trace ended, or is malformed): an expression that does not
     -- compile; the traces then differ at this step at the latest
     | none => .renameRe false []
+  | .replaceRe =>
+    match decExt record with
+    | some (ok, seqs) => .replaceRe ok (seqs.map bytesOfString)
+    | none => .replaceRe false []
 
 /-- the probes a step adds beyond those of its text: `renamere` probes every old and every new name -/
 def extraProbes (cur : List String) : Op → List String
@@ -139,6 +145,7 @@ def extraProbes (cur : List String) : Op → List String
 /-- the echo of the external values in the status of a `renamere` step -/
 def statusEcho : Op → String
   | .renameRe ok names => encExt ok names
+  | .replaceRe ok seqs => encExt ok (seqs.map stringOfBytes)
   | _ => ""
 
 def decOpX (s : String) : Option (OpX × List String) :=
@@ -146,6 +153,7 @@ def decOpX (s : String) : Option (OpX × List String) :=
   | ["shuffle", sd] => (parseInt? sd).map fun v => (.shuffle v, [])
   | ["sample", nb, sd] => do let a ← parseInt? nb; let b ← parseInt? sd; pure (.sample a b, [])
   | ["renamere", _, _] => some (.renameRe, [])
+  | ["replacere", _, _] => some (.replaceRe, [])
   | _ => none
 
 def decOp (s : String) : Option (Op × List String) :=
@@ -205,6 +213,13 @@ def decOp (s : String) : Option (Op × List String) :=
   | ["rmgapsites", f, e] => do
     let (x, y) ← frac f
     pure (.rmGapSites x y (decBool e), [])
+  | ["rmcharsites", cs, f, e, ic, ig, iN, rv] => do
+    let (x, y) ← frac f
+    let set := if cs == "_" then [] else bytesOfString (pctDec cs)
+    pure (.rmCharSites set x y (decBool e) (decBool ic) (decBool ig) (decBool iN) (decBool rv), [])
+  | ["rmmajsites", f, e, ig, iN] => do
+    let (x, y) ← frac f
+    pure (.rmMajSites x y (decBool e) (decBool ig) (decBool iN), [])
   | ["replacechar", n, i, c] => do
     let x ← parseInt? i; let ch ← (bytesOfString c).head?
     pure (.replaceChar (pctDec n) x ch, [])
